@@ -28,7 +28,7 @@ DEFAULT = {"http": 80, "https": 443, "ws": 80, "wss": 443}
 SERVERS = [("h", "d"), ("h", 8000), ("h", 80), ("h", 443), ("svc.internal", 443), ("svc.internal", 80), ("example.org", "d"), ("10.0.0.1", "d"), ("10.0.0.1", 81), ("::1", "d"), ("::1", 8000), ("2001:db8::7", 8443)]
 HOSTS = [None, "example.com", "example.com:80", "example.com:8080", "[::1]", "[::1]:8000", "EXAMPLE.com", "a.b:443"]
 ROOTS = ["", "/r", "/r/é"]
-PATHS = ["/", "/a", "/a/b", "/é", "/a b", "/a;b", "/a:b@c", "/~x", "", "/a//b", "//x", "/%41", "/a&b=c", "/a+b", "/中/文", "/a'(b)*!$,"]
+PATHS = ["/", "/r", "/r/x", "/r/é/y", "/a", "/a/b", "/é", "/a b", "/a;b", "/a:b@c", "/~x", "", "/a//b", "//x", "/%41", "/a&b=c", "/a+b", "/中/文", "/a'(b)*!$,"]
 ODD_PATHS = ["/a?b", "/a#b", "/?", "/#", "/a?b#c", "/a\tb", "/a\nb", "/a\rb"]
 QUERIES = ["", "a=1", "a=1&b=%20", "é=1", "a=b=c", "?", "a=1?b", "x", "a=&b", "a=1&a=2", "%E4%B8%AD=1", "q=a+b"]
 
@@ -106,10 +106,10 @@ def check_request_url(ctx, scheme, server, host, root, path, query, odd=False):
 # ------------------------------------------------------------------ replace()
 USERS = [None, ("u", None), ("u", "p"), ("u", "p@ss:w"), ("u", ""), ("us.er", "x*y")]
 RHOSTS = ["h", "example.com", "10.0.0.1", "[::1]", "[2001:db8::1]"]
-RPORTS = [None, 80, 8080]
+RPORTS = [None, 80, 8080, 0]
 NEW = {"scheme": ["https", "ws"], "path": ["/n", "/n/é", ""], "query": ["", "k=v&k=w"], "fragment": ["", "top"],
        "username": [None, "v", "v.w"], "password": [None, "q", "a@b", "a:b", "********", "*", "S3CR3T!"],
-       "hostname": ["g", "[::2]", "G.example"], "port": [None, 9, 443]}
+       "hostname": ["g", "[::2]", "G.example"], "port": [None, 9, 443, 0]}
 KEYS = list(NEW)
 
 
@@ -205,7 +205,7 @@ def check_query_helpers(ctx, rng):
         o.pop("query"), b.pop("query")
         return o == b
     if op == "include":
-        kw = {rng.choice(["a", "b", "c", "zz"]): rng.choice(["9", 7, "", "p q"]) for _ in range(rng.randrange(1, 3))}
+        kw = {rng.choice(["a", "b", "c", "zz", "é"]): rng.choice(["9", 7, "", "p q", 0, "é&="]) for _ in range(rng.randrange(1, 3))}
         case["kwargs"] = kw
         new = base.include_query_params(**kw)
         got = parse_qsl(new.query, keep_blank_values=True)
@@ -223,7 +223,7 @@ def check_query_helpers(ctx, rng):
         if got != [(k, str(v)) for k, v in kw.items()]:
             ctx.violation("query|replace|query-not-replaced", case, repr(got))
     else:
-        ks = rng.sample(["a", "b", "c", "zz"], rng.randrange(1, 3))
+        ks = rng.sample(["a", "b", "c", "zz"] + keys, rng.randrange(1, 3))
         case["keys"] = ks
         new = base.remove_query_params(*ks)
         got = parse_qsl(new.query, keep_blank_values=True)
